@@ -83,6 +83,17 @@ def wakeup_paths(chk, m, K, Kconst):
         is_now = r[0] == "ld" and r[1] == K.kptr("now")
         is_unbounded = r[0] == "b" and r[1] == "add" and strip_casts(r[3])[0] == "ld" and strip_casts(r[3])[1] == K.kptr("now") and r[4][0] == "c"
         is_head = r[0] == "ld" and ptr_parts(r[1])[1] in (K.fibre["duetime"][0] - K.link_off, K.fibre["duetime"][0])
+        # a kernel member kept equal to the head's due time (validated by C02 T3.head-cache on every segment that changes the queue)
+        head_cache = None
+        if not is_now and not is_head and r[0] == "ld" and K.member_of(r[1]) and K.member_of(r[1])[1] == 0 and \
+                K.member_of(r[1])[0] not in ("current", "state", "now", "runq", "atomic_runq", "timerq", "taint_flags"):
+            _pf, _ff = chk.rule_prefix, chk.rule_filter
+            chk.rule_prefix, chk.rule_filter = "C02.", None
+            try:
+                if fib.check_head_cache(chk, m, K, K.member_of(r[1])[0]) is True:
+                    head_cache = K.member_of(r[1])[0]
+            finally:
+                chk.rule_prefix, chk.rule_filter = _pf, _ff
         if is_now:
             chk.ob("U1.value-set", pid, True, "returns now", p.ret_inst.loc, fn.name)
             # 'now' means "do not sleep": it needs a reason - a queued request, a queued fibre, or a fibre that yielded IN THIS PASS.
@@ -141,6 +152,13 @@ def wakeup_paths(chk, m, K, Kconst):
             chk.ob("U1.value-set", pid, ok, "returns now + %d (FIBRE_UNBOUNDED_SLEEP = %d must be used and stay below 2^31 so that the "
                    "result is cyclically after now)" % (kval, Kconst), p.ret_inst.loc, fn.name)
             need = ("atomic", "runq", "timerq")
+        elif head_cache:
+            chk.ob("U1.value-set", pid, True, "returns kernel.%s, which is kept equal to the due time of the timer queue's head "
+                   "(C02 T3.head-cache)" % head_cache, p.ret_inst.loc, fn.name)
+            need = ("atomic", "runq")
+            chk.ob("U2.head-exists", pid, facts["timerq"] is False,
+                   "the cached due time is used only when the timer queue is known to be non-empty (timerq empty? %s)" % facts["timerq"],
+                   p.ret_inst.loc, fn.name)
         elif is_head:
             # the head of the timer queue
             root = ptr_parts(r[1])[0]
